@@ -18,7 +18,7 @@ def build():
     with open(os.path.join(ROOT, "build", ".lock"), "w") as lk:
         fcntl.flock(lk, fcntl.LOCK_EX)
         subprocess.run([sys.executable, os.path.join(HERE, "gen_shadow.py"), SHADOW], check=True)
-        env = dict(os.environ, CARGO_NET_OFFLINE="true")
+        env = dict(os.environ, CARGO_NET_OFFLINE="true", CARGO_TARGET_DIR=os.path.join(ROOT, "build", "target-loom"))
         r = subprocess.run(["cargo", "build", "--release"], cwd=HERE, env=env, capture_output=True, text=True)
         open(os.path.join(ROOT, "build", "svloom.log"), "w").write(r.stdout + r.stderr)
         if r.returncode != 0:
